@@ -124,6 +124,13 @@ func (g *UpdGen) val(depth int, wantT string) *UVal {
 	if t == "" {
 		t = pick(g.r, allTypes)
 	}
+	if (t == "M" || t == "L") && g.r.Chance(12) {
+		// an empty map or list is a value like any other (it keeps its type on the way in and on the way out)
+		if t == "M" {
+			return &UVal{K: "operand", O: &Operand{Kind: "val", Val: AV{T: "M", M: []KV{}}}}
+		}
+		return &UVal{K: "operand", O: &Operand{Kind: "val", Val: AV{T: "L", L: []AV{}}}}
+	}
 	return &UVal{K: "operand", O: &Operand{Kind: "val", Val: genOfType(g.r, t, 1, g.o)}}
 }
 
